@@ -32,8 +32,8 @@ ASSUMPTIONS = [
 
 KINDS = ("latex", "unicode", "html")
 ALLK = ("latex", "unicode", "html", "plain")
-QUICK = ["small_q", "decades_q", "uncert_q", "conv_q", "roman"]
-THOROUGH = ["small_t", "decades_t", "uncert_t", "conv_q", "roman"]
+QUICK = ["small_q", "decades_q", "uncert_q", "conv_q", "opts_q", "roman"]
+THOROUGH = ["small_t", "decades_t", "uncert_t", "conv_q", "opts_q", "roman"]
 
 
 # ---------------------------------------------------------------- calling chempy
@@ -58,14 +58,14 @@ def _unit(name):
         "m3/mol/s": u.m ** 3 / u.mol / u.s,
         "mol/m3": u.mol / u.m ** 3,
         "kJ/mol": u.kilojoule / u.mol, "J/mol": u.joule / u.mol,
-        "g": u.gram, "kg": u.kg, "ms": u.ms, "s": u.s,
+        "g": u.gram, "kg": u.kg, "ms": u.ms, "s": u.s, "hour": u.hour, "min": u.minute,
     }[name]
 
 
 # (from, to) pairs of Numbers!ConvTable the seeded generator draws from; the factor is the spec's
 CONVS = [("km", "m"), ("m", "km"), ("m", "cm"), ("cm", "m"), ("mm", "m"), ("m3/mol/s", "1/M/s"),
          ("1/M/s", "m3/mol/s"), ("M", "mol/m3"), ("mol/m3", "M"), ("kJ/mol", "J/mol"), ("g", "kg"),
-         ("kg", "g"), ("ms", "s")]
+         ("kg", "g"), ("ms", "s"), ("hour", "s"), ("min", "s"), ("hour", "min"), ("hour", "ms"), ("s", "ms"), ("km", "cm")]
 
 
 def _unit_text(kind, unit):
@@ -75,57 +75,122 @@ def _unit_text(kind, unit):
     return {"latex": latex_of_unit, "unicode": unicode_of_unit, "html": html_of_unit}[kind](unit)
 
 
+DEFAULT_OPT = {"api": "number", "impl": False, "fsty": "g", "xty": "float", "uname": "", "ucv": {"from": "", "to": ""}}
+
+
+def _typed(x, xty):
+    """The number in the type the case asks for."""
+    if xty == "int":
+        return int(x)
+    if xty == "npint":
+        import numpy as np
+        return np.int64(int(x))
+    if xty == "npfloat":
+        import numpy as np
+        return np.float64(x)
+    if xty == "nparray":
+        import numpy as np
+        return np.array(x)
+    return x
+
+
+def _efmt(n):
+    return lambda v, *a: ("%%.%de" % (n - 1)) % v
+
+
 def call(spec):
-    """spec: {"fn": kind | "plain" | "uncert_plain" | "roman", "x", "n" | ("xe", "p", "src"), "unit",
-    "from"}: x (and xe) are given in unit "from" (default: "unit") and printed in "unit"; src "attr":
-    the uncertainty is carried by the number itself (UncertainQuantity) instead of being passed.
+    """spec: {"fn": kind | "plain" | "rxn-unicode" | "rxn-latex" | "rxn-html" | "uncert_plain" | "arrh" |
+    "roman", "x", "n" | ("xe", "p", "src"), "unit", "from", "opt"}: x (and xe) are given in unit "from"
+    (default: "unit") and printed in "unit"; src "attr": the uncertainty is carried by the number itself
+    (UncertainQuantity) instead of being passed; opt: Numbers!DefaultOpt fields (precision left
+    implicit, caller-supplied formatter, type of the number, unit of the uncertainty).
     -> (trace, printed text) ; the trace ends with the lexed observation."""
     fn = spec["fn"]
+    opt = dict(DEFAULT_OPT, **(spec.get("opt") or {}))
     if fn == "roman":
         from chempy.printing.numbers import roman
-        txt = roman(spec["n"])
-        return [{"k": "roman", "n": spec["n"]}, {"k": "result", "obs": nc.lex_roman(txt)}], txt
+        txt = roman(_typed(spec["n"], opt["xty"]))
+        return [{"k": "roman", "n": spec["n"], "ty": opt["xty"] if opt["xty"] == "npint" else "int"},
+                {"k": "result", "obs": nc.lex_roman(txt)}], txt
     x = spec["x"]
     uname = spec.get("unit") or ""
     unit = _unit(uname) if uname else None
     fname = spec.get("from") or ""
     given = _unit(fname) if fname else unit      # the unit the input is expressed in
     src = spec.get("src", "arg")
+    xv = _typed(x, opt["xty"])
     ev = [{"k": "value", "x": nc.dec_of(x)}]
+    if opt != DEFAULT_OPT:
+        ev.append({"k": "options", "o": opt})
     lexkind = fn
-    if fn in ("plain", "rxn-unicode"):
-        # the parameter of a printed reaction: Reaction.string (three significant digits) and
-        # Reaction.unicode (five)
+    which = None
+    if fn in ("plain", "rxn-unicode", "rxn-latex", "rxn-html", "arrh"):
+        # the parameter of a printed reaction: Reaction.string (default three significant digits, or
+        # the magnitude_fmt setting) and Reaction.unicode / latex / html (five)
         from chempy import Reaction, Substance
-        param = x * unit if unit is not None else x
-        r = Reaction({"A": 1}, {"B": 1}, param, checks=())
-        if fn == "plain":
-            s = r.string(with_param=True)
-            utext = _unit_text("plain", unit) if unit is not None else ""
+        subst = {"A": Substance("A"), "B": Substance("B")}
+        if fn == "arrh":
+            from chempy.kinetics.arrhenius import ArrheniusParam
+            param = ArrheniusParam(spec["A"], spec["Ea"])
+            which = spec["which"]
+            printer = spec["printer"]
         else:
-            s = r.unicode({"A": Substance("A"), "B": Substance("B")}, with_param=True)
-            utext = unit.dimensionality.unicode if unit is not None else ""
+            param = xv * unit if unit is not None else xv
+            printer = {"plain": "string", "rxn-unicode": "unicode", "rxn-latex": "latex", "rxn-html": "html"}[fn]
+        r = Reaction({"A": 1}, {"B": 1}, param, checks=())
+        utext = ""
+        if printer == "string":
+            kw = {} if (opt["impl"] or fn == "arrh") else {"magnitude_fmt": lambda v, n=spec["n"]: ("%%.%dg" % n) % v}
+            s = r.string(with_param=True, **kw)
+            sep = "; "
+            lexkind = "plain"
+            if unit is not None:
+                utext = _unit_text("plain", unit)
+        elif printer == "unicode":
+            s = r.unicode(subst, with_param=True)
+            sep = "; "
             lexkind = "unicode"
-        txt = s.split("; ", 1)[1] if "; " in s else s
+            if unit is not None:
+                utext = unit.dimensionality.unicode
+        elif printer == "latex":
+            from chempy.units import _latex_from_dimensionality
+            s = r.latex(subst, with_param=True)
+            sep = "; "
+            lexkind = "latex-rxn"
+            if unit is not None:
+                utext = _latex_from_dimensionality(unit.dimensionality)
+        else:
+            s = r.html(subst, with_param=True)
+            sep = "&#59; "
+            lexkind = "html"
+            if unit is not None:
+                utext = str(unit.dimensionality)
+        txt = s.split(sep, 1)[1] if sep in s else s
     elif fn == "uncert_plain":
         from chempy.printing.numbers import _float_str_w_uncert
-        txt = _float_str_w_uncert(x, spec["xe"], spec["p"])
+        txt = _float_str_w_uncert(xv, spec["xe"]) if opt["impl"] else _float_str_w_uncert(xv, spec["xe"], spec["p"])
         utext = ""
         lexkind = "plain"
     else:
         f = _fn(fn)
         utext = _unit_text(fn, unit) if unit is not None else ""
         kw = {"unit": unit} if fname else {}
+        if not opt["impl"]:
+            if "xe" in spec:
+                kw["fmt"] = spec["p"]
+            else:
+                kw["fmt"] = _efmt(spec["n"]) if opt["fsty"] == "e" else spec["n"]
         if "xe" in spec:
+            ugiven = _unit(opt["ucv"]["from"]) if opt["ucv"]["from"] else given
             if given is not None and src == "attr":
                 import quantities as pq
-                txt = f(pq.UncertainQuantity(x, given, spec["xe"]), fmt=spec["p"], **kw)
+                txt = f(pq.UncertainQuantity(xv, given, spec["xe"]), **kw)
             elif given is not None:
-                txt = f(x * given, spec["xe"] * given, fmt=spec["p"], **kw)
+                txt = f(xv * given, spec["xe"] * ugiven, **kw)
             else:
-                txt = f(x, spec["xe"], fmt=spec["p"])
+                txt = f(xv, spec["xe"], **kw)
         else:
-            txt = f(x * given if given is not None else x, fmt=spec["n"], **kw)
+            txt = f(xv * given if given is not None else xv, **kw)
     if utext:
         ev.append({"k": "unit", "u": utext})
     if fname:
@@ -134,8 +199,14 @@ def call(spec):
         ev += [{"k": "uncert", "xe": nc.dec_of(spec["xe"]), "p": spec["p"], "src": src}, {"k": "formatu"}]
     else:
         ev += [{"k": "prec", "n": spec["n"]}, {"k": "format"}]
-    obs = nc.lex_number(txt, lexkind)
+    if which is not None:
+        # a rate expression: the numbers written inside it, in order (pre-exponential factor, activation energy)
+        found = nc.lex_embedded(txt, lexkind)
+        obs = found[which] if len(found) == 2 else nc.lex_number("", lexkind)
+    else:
+        obs = nc.lex_number(txt, lexkind)
     obs.pop("text", None)
+    obs.pop("consumed", None)
     ev.append({"k": "result", "obs": obs})
     return ev, txt
 
@@ -199,10 +270,30 @@ def _rand_uncert(rng, x):
 UNITS = ["m/s", "mol/dm3/s", "1/M/s", "kg*m2/s2", "J/K/mol", "1/s", "M"]
 
 
+def _rand_float17(rng):
+    """A float with a random 53-bit significand (its repr has 16-17 digits)."""
+    m = rng.getrandbits(52) | (1 << 52)
+    x = float(m) * 2.0 ** (rng.randint(-1000, 940) - 52)
+    return -x if rng.random() < 0.3 else x
+
+
+def _rand_opt(rng, has_unc, unit, frm):
+    o = dict(DEFAULT_OPT)
+    o["ucv"] = {"from": "", "to": ""}
+    u = rng.random()
+    if u < 0.35:
+        o["impl"] = True
+    elif u < 0.5 and not has_unc:
+        o["fsty"] = "e"
+    elif u < 0.7:
+        o["xty"] = rng.choice(["npfloat", "nparray"])
+    return o
+
+
 def seeded_specs(rng, n):
     out = []
     while len(out) < n:
-        x = _rand_value(rng)
+        x = _rand_float17(rng) if rng.random() < 0.2 else _rand_value(rng)
         if x == 0 or abs(x) < 1e-300 or abs(x) > 1e305:
             continue
         u = rng.random()
@@ -210,46 +301,90 @@ def seeded_specs(rng, n):
         frm = ""
         if rng.random() < 0.2 and abs(x) < 1e290 and abs(x) > 1e-290:
             frm, unit = rng.choice(CONVS)       # given in one unit, shown in another
+        opt = _rand_opt(rng, u >= 0.6, unit, frm) if rng.random() < 0.3 else dict(DEFAULT_OPT)
         if u < 0.5:
-            out.append({"fn": rng.choice(KINDS), "x": x, "n": rng.randint(1, 10), "unit": unit, "from": frm})
-        elif u < 0.57:
-            out.append({"fn": "plain", "x": x, "n": 3, "unit": "" if frm else unit})
+            nn = 5 if opt["impl"] else rng.randint(1, 10)
+            out.append({"fn": rng.choice(KINDS), "x": x, "n": nn, "unit": unit, "from": frm, "opt": opt})
+        elif u < 0.56:
+            impl = rng.random() < 0.5
+            out.append({"fn": "plain", "x": x, "n": 3 if impl else rng.randint(1, 8), "unit": "" if frm else unit,
+                        "opt": dict(DEFAULT_OPT, api="rxnstring", impl=impl)})
         elif u < 0.6:
-            out.append({"fn": "rxn-unicode", "x": x, "n": 5, "unit": "" if frm else unit})
+            out.append({"fn": rng.choice(["rxn-unicode", "rxn-latex", "rxn-html"]), "x": x, "n": 5,
+                        "unit": "" if frm else unit, "opt": dict(DEFAULT_OPT, impl=True)})
+        elif u < 0.63:
+            # a rate expression as parameter: both numbers of an Arrhenius expression must be shown
+            A, Ea = abs(x), abs(_rand_value(rng))
+            if not (1e-290 < Ea < 1e290):
+                continue
+            pr = rng.choice(["string", "unicode", "html", "latex"])
+            for which, val in ((0, A), (1, Ea)):
+                out.append({"fn": "arrh", "printer": pr, "which": which, "A": A, "Ea": Ea, "x": val, "n": 5,
+                            "unit": "", "opt": dict(DEFAULT_OPT, impl=True)})
         else:
             xe = _rand_uncert(rng, x)
             if xe is None:
                 continue
-            p = rng.randint(1, 10)
+            opt["fsty"] = "g"
+            p = 2 if opt["impl"] else rng.randint(1, 10)
             if rng.random() < 0.3:
-                out.append({"fn": "uncert_plain", "x": x, "xe": xe, "p": p, "unit": ""})
+                out.append({"fn": "uncert_plain", "x": x, "xe": xe, "p": p, "unit": "", "opt": dict(opt, xty="float")})
             else:
+                src = "attr" if (unit and rng.random() < 0.5) else "arg"
+                if unit and not frm and src == "arg" and rng.random() < 0.3:
+                    # the uncertainty handed over in another unit than the number
+                    cands = [c for c in CONVS if c[1] == unit]
+                    if cands:
+                        uf = rng.choice(cands)[0]
+                        opt = dict(opt, uname=unit, ucv={"from": uf, "to": unit})
+                        xe = None
+                if xe is None:
+                    # expressed in the other unit the uncertainty must still be at most half the value:
+                    # draw it there (1e-8 .. 1e-2 of the value after conversion is not known here - the
+                    # spec's guard decides; calls it does not admit are skipped)
+                    xe = _rand_uncert(rng, x)
+                    if xe is None:
+                        continue
                 out.append({"fn": rng.choice(KINDS), "x": x, "xe": xe, "p": p, "unit": unit, "from": frm,
-                            "src": "attr" if (unit and rng.random() < 0.5) else "arg"})
+                            "src": src, "opt": opt})
     return out
 
 
 # ---------------------------------------------------------------- cases -> calls
+def _opt_of(i):
+    o = i.get("opt") or {}
+    ucv = o.get("ucv") or {}
+    return {"api": o.get("api", "number"), "impl": bool(o.get("impl", False)), "fsty": o.get("fsty", "g"),
+            "xty": o.get("xty", "float"), "uname": o.get("uname", ""),
+            "ucv": {"from": ucv.get("from", ""), "to": ucv.get("to", "")}}
+
+
 def case_specs(case, idx):
     """The chempy calls that exercise one TLC case."""
     i = case["in"]
+    opt = _opt_of(i)
     if i["mode"] == "roman":
-        return [{"fn": "roman", "n": i["n"]}]
+        return [{"fn": "roman", "n": i["n"], "opt": opt}]
     x = nc.float_of(i["x"])
     cv = i.get("conv") or {"from": "", "to": ""}
+    base = {"x": x, "opt": opt, "unit": cv["to"] if cv["from"] else opt["uname"], "from": cv["from"]}
     if i["mode"] == "number":
-        if cv["from"]:
-            return [{"fn": k, "x": x, "n": i["n"], "unit": cv["to"], "from": cv["from"]} for k in KINDS]
-        kinds = list(KINDS) + (["plain"] if i["n"] == 3 else [])
-        return [{"fn": k, "x": x, "n": i["n"], "unit": ""} for k in kinds]
-    xe = nc.float_of(i["xe"])
-    src = i.get("usrc") or "arg"
-    if cv["from"]:
-        return [{"fn": k, "x": x, "xe": xe, "p": i["p"], "unit": cv["to"], "from": cv["from"], "src": src} for k in KINDS]
-    if src == "attr":
-        # an UncertainQuantity needs a unit: shown in its own unit
-        return [{"fn": k, "x": x, "xe": xe, "p": i["p"], "unit": "m/s", "src": src} for k in KINDS]
-    return [{"fn": k, "x": x, "xe": xe, "p": i["p"], "unit": ""} for k in list(KINDS) + ["uncert_plain"]]
+        base["n"] = i["n"]
+        if opt["api"] == "rxnstring":
+            return [dict(base, fn="plain")]
+        kinds = list(KINDS)
+        if opt == DEFAULT_OPT and not cv["from"] and i["n"] == 3:
+            kinds.append("plain")
+        if opt["impl"] and opt["fsty"] == "g" and not cv["from"] and opt["xty"] != "nparray":
+            kinds += ["rxn-unicode", "rxn-latex", "rxn-html"]     # built on the same formatters, default precision
+        return [dict(base, fn=k) for k in kinds]
+    base.update(xe=nc.float_of(i["xe"]), p=i["p"], src=i.get("usrc") or "arg")
+    if base["src"] == "attr" and not base["unit"]:
+        base["unit"] = "m/s"            # an UncertainQuantity needs a unit: shown in its own unit
+    kinds = list(KINDS)
+    if not base["unit"] and base["src"] == "arg":
+        kinds.append("uncert_plain")
+    return [dict(base, fn=k) for k in kinds]
 
 
 def _denoted(obs):
@@ -301,9 +436,17 @@ def _judge(ctx, specs, outs, cases=None, cfg="NumbersTrace.cfg"):
         ctx.ran(_spec_key(sp), nontrivial=_nontrivial(sp))
         if v == "accept":
             continue
+        if clause == "step:uncert" and (sp.get("opt") or {}).get("ucv", {}).get("from"):
+            # seeded call whose uncertainty, converted to the display unit, exceeds half the value:
+            # outside the quantifier (the guard of Numbers!ChooseUncert), not judged
+            ctx.skip("uncertainty-above-half-value-after-conversion")
+            continue
         if clause.startswith("step:") or clause in ("notdone", "no-result-event", "mode"):
             raise core.MachineryFailure("trace outside the model: %s at %d: %r" % (clause, pos, _spec_key(sp)))
-        ctx.violation({"fn": sp["fn"], "clause": clause, "mode": "uncert" if "xe" in sp else ("roman" if sp["fn"] == "roman" else "number")},
+        vkey = {"fn": sp["fn"], "clause": clause, "mode": "uncert" if "xe" in sp else ("roman" if sp["fn"] == "roman" else "number")}
+        if sp["fn"] == "arrh":
+            vkey["printer"] = sp["printer"]
+        ctx.violation(vkey,
                       {"direction": "code->spec", "spec": _spec_key(sp), "trace": o["trace"],
                        "observed": o["txt"], "verdict": {"verdict": v, "pos": pos, "clause": clause},
                        "tlc_cfg": cfg})
@@ -316,26 +459,39 @@ NEED = {
     "uncert": ["unc-plain", "unc-exp", "-carry", "-ucarry", "-int"],
     "roman": ["roman"],
     "conv": ["-conv", "-attr", "-arg", "num-", "unc-"],
+    "opts": ["-impl", "-e", "-int", "-npfloat", "-nparray", "-npint", "-rxnstring", "-ucv", "roman", "-conv"],
 }
 
 
 def run(ctx):
     import chempy  # noqa
     import core
-    # every action of the machine is taken (tiny configuration, -coverage on)
-    ctx.tlc("Numbers_MC", "Numbers_MC_cover.cfg", require_cases=50, timeout=600, require_actions=[
-        "GenValue", "GenUnit", "GenConvert", "GenPrecision", "Format", "GenUncert", "FormatUncert",
-        "GenRoman", "RomanStep", "RomanFinish"])
+    # every action of the machine is taken: thorough tier measured with -coverage on a tiny
+    # configuration; quick tier through the case classes every action leaves (NEED)
+    if not ctx.quick:
+        ctx.tlc("Numbers_MC", "Numbers_MC_cover.cfg", require_cases=50, timeout=600, require_actions=[
+            "GenValue", "GenOptions", "GenUnit", "GenConvert", "GenPrecision", "Format", "GenUncert", "FormatUncert",
+            "GenRoman", "RomanStep", "RomanFinish"])
     slices = QUICK if ctx.quick else THOROUGH
     all_specs, all_outs = [], []
+    by_slice = {}
+    if ctx.quick:
+        # one TLC run explores all quick slices (the slice is a variable fixed in the initial state)
+        res = ctx.tlc("Numbers_MC", "Numbers_MC_quick.cfg", require_cases=100, timeout=1500)
+        for c in res.cases:
+            by_slice.setdefault(c["in"]["slice"], []).append(c)
+        if set(by_slice) != set(slices):
+            raise core.MachineryFailure("quick configuration explores %s, expected %s" % (sorted(by_slice), slices))
     for sl in slices:
-        res = ctx.tlc("Numbers_MC", "Numbers_MC_%s.cfg" % sl, require_cases=100, timeout=1500)
-        cases = res.cases
+        if ctx.quick:
+            cases = by_slice.pop(sl)
+        else:
+            cases = ctx.tlc("Numbers_MC", "Numbers_MC_%s.cfg" % sl, require_cases=100, timeout=1500).cases
         classes = set(c["cls"] for c in cases)
         for need in NEED[sl.split("_")[0]]:
             if not any(need in c for c in classes):
                 raise core.MachineryFailure("vacuity: no case of class *%s* in slice %s" % (need, sl))
-        sel = cases if (sl == "roman" or not ctx.quick) else ctx.pick(cases, 900)
+        sel = cases if (sl == "roman" or not ctx.quick) else ctx.pick(cases, 450)
         # every selected case: all presentations are called and compared with the roundings TLC lists
         # (number cases); which of the calls are additionally judged by the trace specification:
         # everything in small selections, one presentation per case (rotating) in large ones, and
@@ -378,7 +534,7 @@ def run(ctx):
 
     # ---- code -> spec beyond the bounds: seeded 15-digit floats, precisions 1..10, uncertainties,
     # quantities in compound units
-    n = 2000 if ctx.quick else 40000
+    n = 1200 if ctx.quick else 40000
     specs = seeded_specs(ctx.rng, n)
     outs = ctx.pmap(_call_safe, specs)
     for sp, o in list(zip(specs, outs))[:2]:
@@ -389,7 +545,7 @@ def run(ctx):
 
 def replay(ctx, rec):
     sp = dict(rec["spec"])
-    for k in ("x", "xe"):
+    for k in ("x", "xe", "A", "Ea"):
         if k in sp and isinstance(sp[k], str):
             sp[k] = float(sp[k])
     o = _call_safe(sp)
